@@ -53,6 +53,7 @@ def c09(rep, tier, seed):
     suite_join.gen(rep, tier, '{"inner"}', '{"many_to_many"}', cl, hashseeds=seeds)
     suite_join.trace(rep, tier, seed, cl, kinds=("inner",), hashseed=seed % 1000)
     suite_repo.validate(rep, {"join"}, cl)
+    suite_heap.gen(rep, tier, "obst4", ("obs_join",))      # joins after write histories of the operands (also as right table, expect words in sequence)
 
 
 def c10(rep, tier, seed):
@@ -63,6 +64,7 @@ def c10(rep, tier, seed):
     suite_join.gen(rep, tier, '{"left","full"}', '{"many_to_many"}', cl, hashseeds=seeds)
     suite_join.trace(rep, tier, seed, cl, kinds=("left", "full"), hashseed=seed % 1000)
     suite_repo.validate(rep, {"join"}, cl)
+    suite_heap.gen(rep, tier, "obst4", ("obs_join",))      # joins after write histories of the operands (also as right table, expect words in sequence)
 
 
 def c11(rep, tier, seed):
@@ -72,6 +74,7 @@ def c11(rep, tier, seed):
     suite_join.gen(rep, tier, '{"inner","left","full"}', suite_join.ALL_EXPECTS, cl)
     suite_join.trace(rep, tier, seed, ("cardinality", "errclass"), hashseed=seed % 1000)
     suite_repo.validate(rep, {"join"}, ("cardinality", "errclass"))
+    suite_heap.gen(rep, tier, "obst4", ("obs_join",))
 
 
 REL_ASSUME = [
@@ -87,6 +90,8 @@ def c12(rep, tier, seed):
     suite_group.gen(rep, tier, suite_group.C12_CLAUSES, hashseeds=seeds)
     suite_group.trace(rep, tier, seed, suite_group.C12_CLAUSES, ops=("aggregate", "reduce"))
     suite_repo.validate(rep, {"group"}, suite_group.C12_CLAUSES)
+    suite_heap.gen(rep, tier, "obsv1", ("obs_stats",))
+    suite_heap.gen(rep, tier, "obst4", ("obs_agg",))
 
 
 def c13(rep, tier, seed):
@@ -95,6 +100,7 @@ def c13(rep, tier, seed):
     suite_group.gen(rep, tier, suite_group.C13_CLAUSES)
     suite_group.trace(rep, tier, seed, suite_group.C13_CLAUSES, ops=("window",))
     suite_repo.validate(rep, {"group"}, suite_group.C13_CLAUSES)
+    suite_heap.gen(rep, tier, "obst4", ("obs_agg",))
 
 
 def c14(rep, tier, seed):
@@ -103,6 +109,8 @@ def c14(rep, tier, seed):
     suite_sort.gen(rep, tier)
     suite_sort.trace(rep, tier, seed)
     suite_repo.validate(rep, {"sort"}, suite_sort.CLAUSES + ("sort_rows",))
+    suite_heap.gen(rep, tier, "obsv2", ("obs_sort",))
+    suite_heap.gen(rep, tier, "obst4", ("obs_sort",))
 
 
 HEAP_ASSUME = [
@@ -125,6 +133,9 @@ def c01(rep, tier, seed):
     # table-level operations never change their operands
     suite_table.gen(rep, tier, ["tassign"] + ([] if tier == "quick" else ["select", "arith"]), ("refused_changes_nothing", "operands_unchanged"))
     suite_table.enumerated(rep, "struct", ("operands_unchanged",))
+    suite_table.enumerated(rep, "twice", ("derived_independent",))      # sizes 1, 3, 70, 1100
+    # derived results are new, independent objects whatever was computed before (same sort twice, ...)
+    suite_heap.gen(rep, tier, "obst1", ("obs_sort", "contents@other", "name@other"))
     if tier != "quick":
         # growth: further value-returning operations (unique, argsort, @, peek) must be pure as well
         suite_misc.gen(rep, ["unique", "argsort", "dot", "matvec", "sample"], ("operands_unchanged",))
@@ -136,6 +147,7 @@ def c02(rep, tier, seed):
     suite_heap.mc(rep, tier, ["tables"])
     suite_heap.devs(rep, ["RaggedAccepted"])
     suite_heap.gen(rep, tier, "tables2deep", cl)        # incl. zero-length vectors and zero-row tables
+    suite_heap.gen(rep, tier, "obst2", ("obs_iter",))   # rows by index / iteration / NESTED iteration after any history
     if tier != "quick":
         suite_heap.gen(rep, tier, "tables", cl)
     suite_heap.trace(rep, tier, seed, cl)
@@ -164,6 +176,7 @@ def c16(rep, tier, seed):
     suite_heap.mc(rep, tier, ["alias", "tables", "fp"])
     suite_heap.devs(rep, ["VecFpNotInvalidated", "TableFpMemo"])
     suite_heap.gen(rep, tier, "fp", cl)           # deep interleavings of fingerprint() reads with writes (paths of 6-8 calls)
+    suite_heap.gen(rep, tier, "obsv2", cl + ("obs_fp",))   # incl. values whose hash() collide and dtype histories
     suite_heap.gen(rep, tier, "alias", cl)
     suite_heap.gen(rep, tier, "tables", cl)
     suite_heap.trace(rep, tier, seed, cl)
@@ -187,6 +200,7 @@ def c05(rep, tier, seed):
     suite_table.gen(rep, tier, ["arith"], ("table_arith", "table_width_mismatch"))
     suite_table.enumerated(rep, "methods", ("broadcast",))
     suite_vec.trace(rep, tier, seed, C05_CL, ops=("elem",))
+    suite_heap.gen(rep, tier, "obsv1", ("obs_unary",))      # unary results after any history = on a fresh equal vector
 
 
 def c06(rep, tier, seed):
@@ -194,6 +208,7 @@ def c06(rep, tier, seed):
     suite_vec.mc(rep, tier)
     suite_vec.gen(rep, tier, ["na", "elem"], C06_CL)
     suite_vec.trace(rep, tier, seed, C06_CL, ops=("elem", "na"))
+    suite_heap.gen(rep, tier, "obsv1", ("obs_na", "obs_stats"))
 
 
 def c07(rep, tier, seed):
@@ -202,6 +217,10 @@ def c07(rep, tier, seed):
     suite_vec.gen(rep, tier, ["slice", "mask", "int", "elem"], C07_CL)
     suite_table.gen(rep, tier, ["select"], ("missing_column", "select_cols", "string_index", "commute"))
     suite_vec.trace(rep, tier, seed, C07_CL, ops=("slice", "mask"))
+    suite_heap.gen(rep, tier, "obsv2", ("obs_cmp",))
+    suite_heap.gen(rep, tier, "obst3", ("obs_select",))     # selections after rename histories (live view / rename_column)
+    if tier != "quick":
+        suite_heap.gen(rep, tier, "obst2", ("obs_select",))
 
 
 def c08(rep, tier, seed):
@@ -226,6 +245,7 @@ def c17(rep, tier, seed):
     suite_heap.mc(rep, tier, ["names"])
     suite_heap.devs(rep, ["CmapStale", "DirTames"])
     suite_heap.gen(rep, tier, "names", cl)
+    suite_heap.gen(rep, tier, "obst3", ("obs_names", "obs_select"))
 
 
 def _merge(*mons):
@@ -300,6 +320,7 @@ def c18(rep, tier, seed):
     suite_group.gen(rep, "quick", cl)
     suite_heap.mc(rep, tier, ["names"])
     suite_heap.gen(rep, tier, "names", cl)
+    suite_heap.gen(rep, tier, "obst3", ("obs_agg", "obs_names"))       # aggregate / window output names after rename histories
     if not q:
         suite_join.trace(rep, tier, seed, cl, hashseed=seed % 1000)
         suite_sort.trace(rep, tier, seed, cl)
@@ -331,6 +352,8 @@ def c20(rep, tier, seed):
     ]
     suite_repr.gen(rep, tier)
     suite_repr.values(rep)
+    suite_heap.gen(rep, tier, "obsv2", ("obs_repr",))
+    suite_heap.gen(rep, tier, "obst3", ("obs_repr",))       # incl. zero-row tables renamed through a live column
 
 
 CHECKS = {
@@ -394,7 +417,8 @@ def replay(prop, path, rep):
             spec = ("drv_names.py", lambda c, o: ["replay", c, o])
             inner = case.get("case", case)
         elif suite.startswith("heap.gen."):
-            inner = {"path": case["path"], "post": case["post"], "variant": case.get("variant", 0)}
+            inner = {"path": case["path"], "post": case["post"], "variant": case.get("variant", 0),
+                     "palette": case.get("palette", "plain")}
             with open(cp, "w") as f:
                 f.write(json.dumps(inner) + "\n")
             engine.run_driver("drv_heap.py", ["replay", cp, op, "1"])
